@@ -13,7 +13,8 @@ import (
 )
 
 // render <sym> <level> <kanji> <quiet> <snum> <sden> <width> <hexpayload>
-//   -> ok <W> <H> <bw> <bh> <hex of 8-bit red channel, row major> | <bitmap of EncodeToBitmap>
+//
+//	-> ok <W> <H> <bw> <bh> <hex of 8-bit red channel, row major> | <bitmap of EncodeToBitmap>
 func init() {
 	// the same with NO options at all: the documented defaults (module size 1, quiet zone 4 / 4 / 2)
 	ops["render.default"] = func(a []string) string {
